@@ -113,6 +113,8 @@ type loopInfo struct {
 	invs    []*clause
 	decs    []*clause
 	decAt   []string // variant values at header
+	counts  []*clause
+	countAt []string // counter values at header (one per counts clause)
 	rangeN  string
 	rangePhi *ssa.Phi
 	before   ssa.Instruction // call-site translators: only names defined before this instruction are in scope
@@ -873,6 +875,29 @@ func (fr *frame) exec(entry *state) {
 				fr.backEdge(li, b, s)
 			}
 		}
+		// counted loops are left by their own test only, and then the counter has reached the bound
+		for _, li := range fr.loops {
+			if li == nil || len(li.counts) == 0 || !li.body[b] {
+				continue
+			}
+			for _, s := range b.Succs {
+				if li.body[s] {
+					continue
+				}
+				for k, cl := range li.counts {
+					name := fmt.Sprintf("count/loop%d.%d/exit@b%d", li.ordinal, k+1, b.Index)
+					pos := fmt.Sprintf("%s:%d", relPath(cl.File), cl.Line)
+					if b != li.header {
+						fr.vc.addObl(&obligation{Name: name, Kind: "inv-preserve", Goal: "true", Status: "refuted", Output: "the loop is left from inside its body", Pos: pos, Clause: "counts " + cl.Src + "   [left by its own test only]"})
+						continue
+					}
+					tr := fr.loopTrans(li, fr.out[b], nil)
+					v, _ := tr.expr(cl.Exprs[0])
+					hi, _ := tr.expr(cl.Exprs[2])
+					fr.vc.addObl(&obligation{Name: name, Kind: "inv-preserve", Goal: and(fr.edgeCond(b, s), fmt.Sprintf("(< %s %s)", v, hi)), Pos: pos, Clause: "counts " + cl.Src + "   [last value]"})
+				}
+			}
+		}
 	}
 }
 
@@ -909,6 +934,12 @@ func (fr *frame) backEdge(li *loopInfo, b, h *ssa.BasicBlock) {
 		}
 		vc.addObl(&obligation{Name: fmt.Sprintf("inv/loop%d.%d/preserve@b%d%s", li.ordinal, k+1, fr.backOrdinal(li, b), sfx), Kind: "inv-preserve", Goal: and(ec, not(f)),
 			Pos: fmt.Sprintf("%s:%d", relPath(cl.File), cl.Line), Clause: cl.Src, Inputs: vc.inputTerms()})
+	}
+	for k, cl := range li.counts {
+		tr := fr.loopTrans(li, st, phiVals)
+		v, _ := tr.expr(cl.Exprs[0])
+		vc.addObl(&obligation{Name: fmt.Sprintf("count/loop%d.%d/step@b%d%s", li.ordinal, k+1, fr.backOrdinal(li, b), sfx), Kind: "inv-preserve",
+			Goal: and(ec, fmt.Sprintf("(distinct %s (+ %s 1))", v, li.countAt[k])), Pos: fmt.Sprintf("%s:%d", relPath(cl.File), cl.Line), Clause: "counts " + cl.Src + "   [grows by one]"})
 	}
 	for _, cl := range li.decs {
 		tr := fr.loopTrans(li, st, phiVals)
@@ -964,6 +995,9 @@ func (fr *frame) enterLoop(li *loopInfo, h *ssa.BasicBlock, pre *state, enter st
 			if cl.Loop == li.ordinal && cl.Kind == "loopdec" {
 				li.decs = append(li.decs, cl)
 			}
+			if cl.Loop == li.ordinal && cl.Kind == "loopcount" && len(cl.Exprs) == 3 {
+				li.counts = append(li.counts, cl)
+			}
 		}
 	}
 	// the state invariants of the sweep hold at every loop head of its functions
@@ -1008,11 +1042,12 @@ func (fr *frame) enterLoop(li *loopInfo, h *ssa.BasicBlock, pre *state, enter st
 		vc.addObl(&obligation{Name: fmt.Sprintf("inv/loop%d.%d/entry", li.ordinal, k+1), Kind: "inv-entry", Goal: and(enter, not(f)),
 			Pos: fmt.Sprintf("%s:%d", relPath(cl.File), cl.Line), Clause: cl.Src})
 	}
-	for _, phi := range phis {
-		if phi.Comment == "rangeindex" {
-			// built-in: holds on entry (value -1)
-			_ = phi
-		}
+	for k, cl := range li.counts {
+		tr := fr.loopTrans(li, pre, entryVals)
+		v, _ := tr.expr(cl.Exprs[0])
+		lo, _ := tr.expr(cl.Exprs[1])
+		vc.addObl(&obligation{Name: fmt.Sprintf("count/loop%d.%d/start", li.ordinal, k+1), Kind: "inv-entry", Goal: and(enter, fmt.Sprintf("(distinct %s %s)", v, lo)),
+			Pos: fmt.Sprintf("%s:%d", relPath(cl.File), cl.Line), Clause: "counts " + cl.Src + "   [first value]"})
 	}
 	// header state: havoc what the loop body may modify
 	hst := pre.clone()
@@ -1070,6 +1105,12 @@ func (fr *frame) enterLoop(li *loopInfo, h *ssa.BasicBlock, pre *state, enter st
 		}
 	}
 	vc.lemmaInstances(pre, hst, hc)
+	li.countAt = nil
+	for _, cl := range li.counts {
+		tr := fr.loopTrans(li, hst, nil)
+		v, _ := tr.expr(cl.Exprs[0])
+		li.countAt = append(li.countAt, v)
+	}
 	for _, cl := range li.decs {
 		tr := fr.loopTrans(li, hst, nil)
 		li.decAt = nil
